@@ -3,7 +3,7 @@
 From Coq Require Import List ZArith NArith Bool Lia.
 From RG Require Import Base.Str Base.Num Model.Recipe Model.Compiler Spec.Valid
   Proofs.RecipeInd Proofs.NodeEqv Proofs.RecipeValid Proofs.CompilerExpand
-  Proofs.CompilerInvSize Proofs.CompilerInvNames Proofs.CompilerInvDefs.
+  Proofs.CompilerInvSize Proofs.CompilerInvNames Proofs.CompilerInvDefs Proofs.CompilerInvSub.
 Import ListNotations.
 
 (** ** Folding the single use [r] of the single-output definition [D]:
@@ -219,6 +219,22 @@ Proof.
   induction k as [|k IH]; intros [|y l] x Hn Hsub Hx; try discriminate; simpl in Hn.
   - inversion Hn; subst. simpl in Hx |- *. rewrite in_app_iff in *. destruct Hx; auto.
   - simpl in Hx |- *. rewrite in_app_iff in *. destruct Hx as [Hx|Hx]; [auto|]. right. eapply IH; eauto.
+Qed.
+
+Lemma concat_replace_split {A} (z : A) pre post : forall k l,
+  nth_error l k = Some (pre ++ z :: post) ->
+  exists la lb, concat l = la ++ z :: lb /\
+    concat (firstn k l ++ (pre ++ post) :: skipn (S k) l) = la ++ lb.
+Proof.
+  induction k as [|k IH]; intros [|y l] Hn; try discriminate; simpl in Hn.
+  - inversion Hn; subst. exists pre, (post ++ concat l). simpl.
+    rewrite <- !app_assoc. split; reflexivity.
+  - destruct (IH l Hn) as (la & lb & H1 & H2). exists (y ++ la), lb.
+    change (concat (firstn (S k) (y :: l) ++ (pre ++ post) :: skipn (S (S k)) (y :: l)))
+      with (y ++ concat (firstn k l ++ (pre ++ post) :: skipn (S k) l)).
+    split.
+    + simpl. rewrite H1. now rewrite app_assoc.
+    + rewrite H2. now rewrite app_assoc.
 Qed.
 
 (** ** One folding step on a state satisfying the invariant *)
@@ -531,5 +547,119 @@ Section Step.
     - exact step_U.
     - exact step_NL.
     - apply step_valid. exact Hblk.
+  Qed.
+
+  (** ** Name uniqueness: the extra invariants are preserved *)
+  Lemma chain_end_r x z : In x (concat bs) -> chain z x -> node_eqb z r = true -> top_ref e x.
+  Proof.
+    intros Hx Hc Hz. destruct z as [| |D' i' a'|]; try discriminate.
+    pose proof Hz as Hz'. unfold r in Hz'. rewrite node_eqb_Reference, !andb_true_iff in Hz'.
+    destruct Hz' as [[HeD _] _].
+    pose proof (chain_inside _ _ Hc) as Hin.
+    destruct (ref_target x D' i' a' Hx Hin) as [HD' _].
+    assert (D' = D) by (apply D_unique; assumption). subst D'.
+    pose proof (all_uses_r x Hx i' a' Hin) as Hr. fold D in Hr. fold r in Hr.
+    exists amt. destruct e_idx_key as [Hidx _]. rewrite Hsub, Hidx. fold r. rewrite <- Hr. exact Hc.
+  Qed.
+
+  Lemma concat_split : exists la lb, concat bs = la ++ D :: lb /\ concat (bs1_of pre post) = la ++ lb.
+  Proof. apply concat_replace_split. exact Hblk. Qed.
+
+  Lemma subl_bs' l' : subl l' (concat bs') ->
+    exists l0, l' = map sg l0 /\ subl l0 (concat bs) /\
+      (forall x, In x l0 -> exists la lb, concat bs = la ++ D :: lb /\ In x (la ++ lb)).
+  Proof.
+    unfold bs'. rewrite <- concat_map. intro H. destruct (subl_map_inv sg _ _ H) as (l0 & -> & Hs).
+    destruct concat_split as (la & lb & H1 & H2). rewrite H2 in Hs.
+    exists l0. split; [reflexivity|]. split.
+    - rewrite H1. now apply subl_app_insert.
+    - intros x Hx. exists la, lb. split; [exact H1|]. eapply subl_In; eauto.
+  Qed.
+
+  Lemma top_ref_pre j ej x : nth_error t j = Some ej -> (S i <= j)%nat -> In x (concat bs) ->
+    top_ref (entry_substitute r new ej) (sg x) -> top_ref ej x \/ (top_ref ej D /\ top_ref e x).
+  Proof.
+    intros Hej Hle Hx [a Hc].
+    assert (Hlive : (i <= j)%nat) by lia.
+    destruct (live_sub_form j ej Hej Hlive) as (bj & ns & s0 & Hsj & _ & _ & _).
+    assert (Hsubj : is_subrecipe (e_sub ej) = true) by (rewrite Hsj; reflexivity).
+    change (e_sub (entry_substitute r new ej)) with (sg (e_sub ej)) in Hc.
+    change (e_idx (entry_substitute r new ej)) with (e_idx ej) in Hc.
+    destruct (chain_substitute_ref D 0 amt new x _ _ _ Hc) as [(X & HcX & HX & _)|(HcN & z & Hz & Hze)].
+    - left. destruct (ref_target x X _ _ Hx (chain_inside _ _ HcX)) as [HXc HXs].
+      assert (X = e_sub ej).
+      { apply (live_sub_inj j ej X Hej Hlive HXc HXs).
+        rewrite <- (names_of_substitute_ref D 0 amt new X HXs).
+        rewrite <- (names_of_substitute_ref D 0 amt new (e_sub ej) Hsubj). fold r. fold sg. now rewrite HX. }
+      subst X. exists a. exact HcX.
+    - right. split; [|eapply chain_end_r; eauto].
+      apply chain_new_D in HcN.
+      destruct (ref_target D _ _ _ D_in_concat (chain_inside _ _ HcN)) as [HYc HYs].
+      assert (HY : sg (e_sub ej) = e_sub ej).
+      { apply (live_sub_inj j ej _ Hej Hlive HYc HYs).
+        apply (names_of_substitute_ref D 0 amt new (e_sub ej) Hsubj). }
+      rewrite HY in HcN. exists a. exact HcN.
+  Qed.
+
+  Hypothesis HSing : forall j ej, nth_error t j = Some ej -> (i <= j)%nat -> Single ej (concat bs).
+
+  Lemma step_Single j e' : nth_error t' j = Some e' -> (S i <= j)%nat -> Single e' (concat bs').
+  Proof.
+    intros Hj Hle. destruct (nth_t' j e' Hj) as (ej & Hej & ->).
+    intros Hlen x' y' Hs Hx' Hy'.
+    assert (Hlenj : (length (e_refs ej) <= 1)%nat) by (simpl in Hlen; rewrite map_length in Hlen; exact Hlen).
+    destruct (subl_bs' _ Hs) as (l0 & Hl0 & Hs0 & Hin0).
+    destruct l0 as [|x [|y [|? ?]]]; try discriminate. simpl in Hl0. inversion Hl0; subst x' y'.
+    assert (Hx : In x (concat bs)) by (eapply subl_In; [exact Hs0 | left; reflexivity]).
+    assert (Hy : In y (concat bs)) by (eapply subl_In; [exact Hs0 | right; left; reflexivity]).
+    assert (SJ := HSing j ej Hej (Nat.le_trans _ _ _ (Nat.le_succ_diag_r i) Hle) Hlenj).
+    assert (Hwith : forall w, In w [x; y] -> top_ref ej w -> top_ref ej D -> False).
+    { intros w Hw Hw1 HD1. destruct (Hin0 w Hw) as (la & lb & E & Hwin). rewrite E in SJ.
+      destruct (subl_pair_with la lb w D Hwin) as [Hp|Hp]; eapply SJ; eauto. }
+    destruct (top_ref_pre j ej x Hej Hle Hx Hx') as [Tx|[TDx Tex]];
+      destruct (top_ref_pre j ej y Hej Hle Hy Hy') as [Ty|[TDy Tey]].
+    - eapply SJ; eauto.
+    - apply (Hwith x); simpl; auto.
+    - apply (Hwith y); simpl; auto.
+    - assert (Hl1 : (length (e_refs e) <= 1)%nat) by (rewrite Hrefs; simpl; lia).
+      exact (HSing i e Hi (le_n _) Hl1 x y Hs0 Tex Tey).
+  Qed.
+
+  Lemma sub_pre x S' : In x (concat bs) -> chain S' (sg x) -> is_subrecipe S' = true ->
+    (exists S0, chain S0 x /\ is_subrecipe S0 = true /\ names_of S' = names_of S0)
+    \/ (chain S' D /\ top_ref e x).
+  Proof.
+    intros Hx Hc HS'. destruct (chain_substitute_sub D 0 amt new x S' Hc HS')
+      as [(S0 & Hc0 & HS0 & ->)|(HcN & z & Hz & Hze)].
+    - left. exists S0. split; [exact Hc0|]. split; [exact HS0|].
+      apply names_of_substitute_ref. exact HS0.
+    - right. split; [now apply chain_new_D | eapply chain_end_r; eauto].
+  Qed.
+
+  Hypothesis HUniq : Uniq lower (concat bs).
+
+  Lemma step_Uniq : Uniq lower (concat bs').
+  Proof.
+    intros x' y' Hs S1 S2 Hc1 Hc2 Hs1 Hs2 n1 n2 Hn1 Hn2.
+    destruct (subl_bs' _ Hs) as (l0 & Hl0 & Hs0 & Hin0).
+    destruct l0 as [|x [|y [|? ?]]]; try discriminate. simpl in Hl0. inversion Hl0; subst x' y'.
+    assert (Hx : In x (concat bs)) by (eapply subl_In; [exact Hs0 | left; reflexivity]).
+    assert (Hy : In y (concat bs)) by (eapply subl_In; [exact Hs0 | right; left; reflexivity]).
+    assert (Hwith : forall w Sw SD nw nD, In w [x; y] -> chain Sw w -> is_subrecipe Sw = true ->
+              chain SD D -> is_subrecipe SD = true -> In nw (names_of Sw) -> In nD (names_of SD) ->
+              svs_eqb (normalise_output_name lower nw) (normalise_output_name lower nD) = false).
+    { intros w Sw SD nw nD Hw Hcw Hsw HcD HsD Hnw HnD.
+      destruct (Hin0 w Hw) as (la & lb & E & Hwin).
+      destruct (subl_pair_with la lb w D Hwin) as [Hp|Hp]; rewrite <- E in Hp.
+      - exact (HUniq w D Hp Sw SD Hcw HcD Hsw HsD nw nD Hnw HnD).
+      - rewrite svs_eqb_sym. exact (HUniq D w Hp SD Sw HcD Hcw HsD Hsw nD nw HnD Hnw). }
+    destruct (sub_pre x S1 Hx Hc1 Hs1) as [(S01 & Hc01 & Hs01 & E1)|[HcD1 Tex]];
+      destruct (sub_pre y S2 Hy Hc2 Hs2) as [(S02 & Hc02 & Hs02 & E2)|[HcD2 Tey]].
+    - rewrite E1 in Hn1. rewrite E2 in Hn2.
+      exact (HUniq x y Hs0 S01 S02 Hc01 Hc02 Hs01 Hs02 n1 n2 Hn1 Hn2).
+    - rewrite E1 in Hn1. apply (Hwith x S01 S2); simpl; auto.
+    - rewrite E2 in Hn2. rewrite svs_eqb_sym. apply (Hwith y S02 S1); simpl; auto.
+    - exfalso. assert (Hl1 : (length (e_refs e) <= 1)%nat) by (rewrite Hrefs; simpl; lia).
+      exact (HSing i e Hi (le_n _) Hl1 x y Hs0 Tex Tey).
   Qed.
 End Step.
